@@ -33,6 +33,16 @@ func singleDef(info *types.Info, root ast.Node, o types.Object) ast.Expr {
 			if objOf(info, s.X) == o && o != nil {
 				other++
 			}
+		case *ast.ValueSpec: // var x T = v (a declaration without a value is the zero value, not a definition)
+			for i, nm := range s.Names {
+				if info.Defs[nm] == o && o != nil && len(s.Values) > 0 {
+					if len(s.Values) == len(s.Names) {
+						rhs = append(rhs, s.Values[i])
+					} else {
+						other++
+					}
+				}
+			}
 		}
 		return true
 	})
